@@ -51,7 +51,8 @@ CFG = {
                   "narrower than 2^16 columns and all widths; text_hard_lines_are_split (text.hardLines = HardwrapScanner's lines = split at the hard breaks). "
                   "COMPOSED: rich_wrap_property (the whole property for richtext in one statement, no oracle hypothesis), plain_wrap_property; "
                   "plain_no_needless_split_needs_pos_indep (an explicit OracleOK segmenter shows PosIndep cannot be dropped). ALIASING: Props.C16Heap over the heap-level model "
-                  "Model.WrapHeap (Go slices, append in place) - a Scan writes only into arrays it allocates: caller's cells and spare capacity untouched, returned lines stay valid. GEN: 19 facts_* theorems over the "
+                  "Model.WrapHeap (Go slices, append in place) - a Scan writes only into arrays it allocates: caller's cells and spare capacity untouched, returned lines stay valid; the same for HardwrapScanner plus hard_scan_refines (the heap-level Scan returns exactly the "
+                  "value-level model's line and remaining cells, every heap, every growth policy). GEN: 19 facts_* theorems over the "
                   "extracted guards of both Scan functions, firstLineSegment, HardwrapScanner and the Draw loops - scanners_agree (text = rich), "
                   "operators proved to be the model's tests for all inputs, int sums (F45), state reset (F116). Real violations found and fixed "
                   "in /repo: F44, F45 (round 1), F116 (stale uniseg state after a long-word split: terminator inside a line, needless split), "
